@@ -92,6 +92,7 @@ var atomFuncs = map[string]string{
 	"(*" + modPath + "/analysis/sql.Table).TableName": "IDENT",
 	"(" + modPath + "/analysis/sql.Table).TableName":  "IDENT",
 	"(go/constant.Value).ExactString":               "CONST",
+	"strconv.Quote":                                 "QSTR",
 	"(go/constant.Value).String":                    "CONST",
 	modPath + "/generator.Origin":                   "COMMENT",
 	modPath + "/generator.ReplaceEnums":             "USER",
@@ -232,7 +233,8 @@ func (ev *tplEval) evalIdent(fc *fctx, id *ast.Ident) Sketch {
 	}
 	ev.identBusy[obj] = true
 	defer delete(ev.identBusy, obj)
-	var inits, incs, prefixes []Sketch
+	var inits, incs, prefixes, once []Sketch
+	onceCond := false
 	isParam, isRange := false, false
 	ast.Inspect(fc.fn, func(n ast.Node) bool {
 		switch n := n.(type) {
@@ -254,6 +256,14 @@ func (ev *tplEval) evalIdent(fc *fctx, id *ast.Ident) Sketch {
 				}
 				rhs := n.Rhs[i]
 				if n.Tok == token.ADD_ASSIGN {
+					if !inLoopAfter(fc.fn, n, obj.Pos()) {
+						// a single (possibly conditional) addition, not an accumulation
+						once = append(once, ev.eval(fc, rhs))
+						if len(pathCondsNoLoop(&FuncInfo{Decl: fc.fn}, n)) > 0 {
+							onceCond = true
+						}
+						continue
+					}
 					incs = append(incs, ev.eval(fc, rhs))
 					continue
 				}
@@ -327,10 +337,36 @@ func (ev *tplEval) evalIdent(fc *fctx, id *ast.Ident) Sketch {
 			out = append(Sketch{Alt{append([]Sketch{{}}, prefixes...)}}, out...)
 		}
 	}
+	for _, o := range once {
+		if onceCond {
+			out = append(out, Alt{[]Sketch{{}, o}})
+		} else {
+			out = append(out, o...)
+		}
+	}
 	if len(incs) > 0 {
 		out = append(out, Star{Sketch{Alt{incs}}, ""})
 	}
 	return out
+}
+
+// inLoopAfter: stmt lies inside a loop that starts after position decl (the variable accumulates over the loop).
+func inLoopAfter(fd *ast.FuncDecl, stmt ast.Node, decl token.Pos) bool {
+	res := false
+	ast.Inspect(fd, func(n ast.Node) bool {
+		switch l := n.(type) {
+		case *ast.ForStmt:
+			if l.Pos() > decl && l.Body.Pos() <= stmt.Pos() && stmt.End() <= l.Body.End() {
+				res = true
+			}
+		case *ast.RangeStmt:
+			if l.Pos() > decl && l.Body.Pos() <= stmt.Pos() && stmt.End() <= l.Body.End() {
+				res = true
+			}
+		}
+		return true
+	})
+	return res
 }
 
 // evalList evaluates a []string expression to the sketch of one element.
